@@ -118,13 +118,15 @@ theorem PInv_init (R : Nat × Nat → Nat) (cap : Cap) (simple : Option SpawnSpe
     Pool.PInv R (Pool.init cap simple) := by
   have hW : ∀ gi, Pool.W R (Pool.init cap simple) gi = 0 := by
     intro gi; simp [Pool.W, hz gi, Pool.pot, Pool.init]
-  refine ⟨?_, ?_, ?_, ?_, ?_, ?_⟩
+  refine ⟨?_, ?_, ?_, ?_, ?_, ?_, ?_, ?_⟩
   · intro g i hp; rw [hW] at hp; exact absurd hp (Nat.lt_irrefl 0)
   · intro g G hG; simp [Pool.init] at hG
   · intro g G i t hG; simp [Pool.init] at hG
   · intro g G hG; simp [Pool.init] at hG
   · intro t g i hm; simp [Pool.dcb, Pool.init] at hm
   · intro m g i hm; simp [Pool.rcb, Pool.init] at hm
+  · intro g G i m hG; simp [Pool.init] at hG
+  · intro g G hG; simp [Pool.init] at hG
 
 theorem World.GInv.step {w : World} (h : w.GInv) (hg : w.All BaseC) (hm : w.MCAll) (x : WOp) : (w.step x).1.GInv := by
   cases x with
@@ -247,7 +249,7 @@ theorem World.ginv_run (base : Nat) (h : History) : ((World.init base).run h).GI
     | cons x xs ih =>
       intro w a b c
       simp only [World.run, List.foldl_cons]
-      exact ih _ (a.next b c x) (World.all_next baseC_invariant w x (admits_all x) b) (c.next x)
+      exact ih _ (a.next b c x) (World.all_next baseC_invariant w x (by cases x <;> rfl) b) (c.next x)
   exact key h _ (World.GInv.init base) (World.all_init BaseC base) (World.MCAll.init base)
 
 end Taskpool
